@@ -453,7 +453,7 @@ func (cfg *Config) replaceElems(repl *syntax.Replace, elems []string) ([]string,
 	if orig == "" && anchor == 0 {
 		return elems, nil // nothing to replace
 	}
-	with, err := Literal(cfg, repl.With)
+	with, err := cfg.replacement(repl.With)
 	if err != nil {
 		return nil, err
 	}
@@ -477,7 +477,7 @@ func (cfg *Config) replaceElems(repl *syntax.Replace, elems []string) ([]string,
 		last := 0
 		for _, loc := range locs {
 			sb.WriteString(elem[last:loc[0]])
-			sb.WriteString(with)
+			with.writeTo(sb, elem[loc[0]:loc[1]])
 			last = loc[1]
 		}
 		sb.WriteString(elem[last:])
@@ -503,12 +503,17 @@ func anchoredPattern(word *syntax.Word) (anchor byte, _ *syntax.Word) {
 	return lit.Value[0], &syntax.Word{Parts: parts}
 }
 
-func replaceAnchored(pat, with, elem string, atEnd bool) string {
+func replaceAnchored(pat string, with replacement, elem string, atEnd bool) string {
+	var sb strings.Builder
 	if pat == "" { // ${var/#/prefix} and ${var/%/suffix}
 		if atEnd {
-			return elem + with
+			sb.WriteString(elem)
+			with.writeTo(&sb, "")
+		} else {
+			with.writeTo(&sb, "")
+			sb.WriteString(elem)
 		}
-		return with + elem
+		return sb.String()
 	}
 	expr, err := pattern.Regexp(pat, 0)
 	if err != nil {
@@ -523,7 +528,56 @@ func replaceAnchored(pat, with, elem string, atEnd bool) string {
 	if loc == nil {
 		return elem
 	}
-	return elem[:loc[0]] + with + elem[loc[1]:]
+	sb.WriteString(elem[:loc[0]])
+	with.writeTo(&sb, elem[loc[0]:loc[1]])
+	sb.WriteString(elem[loc[1]:])
+	return sb.String()
+}
+
+// replacement is the expanded replacement string of ${var/pattern/repl}:
+// literal pieces, between which the matched text is inserted.
+// Like Bash 5.2 with its default patsub_replacement option, an unquoted "&"
+// stands for the matched text, and "\&" is a literal ampersand.
+type replacement []string
+
+func (r replacement) writeTo(sb *strings.Builder, match string) {
+	for i, lit := range r {
+		if i > 0 {
+			sb.WriteString(match)
+		}
+		sb.WriteString(lit)
+	}
+}
+
+func (cfg *Config) replacement(word *syntax.Word) (replacement, error) {
+	if word == nil {
+		return replacement{""}, nil
+	}
+	field, err := cfg.wordField(word.Parts, quoteNone)
+	if err != nil {
+		return nil, err
+	}
+	repl := replacement{""}
+	for _, part := range field {
+		last := &repl[len(repl)-1]
+		if part.quote > quoteNone || !strings.Contains(part.val, "&") {
+			*last += part.val
+			continue
+		}
+		s := part.val
+		for i := 0; i < len(s); i++ {
+			switch {
+			case s[i] == '\\' && i+1 < len(s) && (s[i+1] == '&' || s[i+1] == '\\'):
+				i++
+				repl[len(repl)-1] += string(s[i])
+			case s[i] == '&':
+				repl = append(repl, "")
+			default:
+				repl[len(repl)-1] += string(s[i])
+			}
+		}
+	}
+	return repl, nil
 }
 
 // removePatternElems applies a pattern removal operator to each element.
